@@ -178,7 +178,11 @@ pub async fn run_conn_h2(
                     }
                 }
             } else {
-                exchange.await
+                // a client does not wait for ever: five virtual minutes
+                match tokio::time::timeout(ms(300_000), exchange).await {
+                    Ok(x) => x,
+                    Err(_) => Err("no response within 300 s".to_string()),
+                }
             };
             let (parts, body) = match done {
                 Ok(x) => x,
